@@ -7,6 +7,7 @@ mod c13;
 mod c14;
 mod gen;
 mod jsonp;
+mod live;
 mod types;
 
 pub struct Args {
@@ -79,7 +80,7 @@ fn main() {
             let cases = 20_000 * scale;
             sharded(n, move |s| c12::run_inproc(seed, s, cases))
         }
-        "c12-live" => c12::run_live(seed, clients, 3_000 * scale),
+        "c12-live" => c12::run_live(seed, clients, 5_000 * scale),
         "c13-inproc" => {
             let cases = 20_000 * scale;
             let mut rep = sharded(n, move |s| c13::run_errors(seed, s, cases));
@@ -98,12 +99,12 @@ fn main() {
             sharded(n, move |s| c13::run_errors(seed, s, cases))
         }
         "c13-status" => c13::run_status_exhaustive(),
-        "c13-live" => c13::run_live(seed, clients, 2_500 * scale),
+        "c13-live" => c13::run_live(seed, clients, 5_000 * scale),
         "c14-inproc" => {
             let (cases, mutated) = if quick { (4_000, 2) } else { (400_000, 100) };
             sharded(n, move |s| c14::run_inproc(seed, s, cases, mutated))
         }
-        "c14-live" => c14::run_live(seed, clients, 2_000 * scale),
+        "c14-live" => c14::run_live(seed, clients, 5_000 * scale),
         _ => usage(),
         }
     };
